@@ -68,10 +68,17 @@ def switched_assertions(vals, got):
         bad.append('strictly-ascending')
         return bad
     exc = O.excursions(vals)
-    gset = set(got)
     covered = set()
+    gp = 0                      # two-pointer sweep: got and the excursions are both ascending
+    ng = len(got)
     for (s, e, sg) in exc:
-        inside = [i for i in got if s <= i < e]
+        while gp < ng and got[gp] < s:
+            gp += 1
+        inside = []
+        q = gp
+        while q < ng and got[q] < e:
+            inside.append(got[q])
+            q += 1
         covered.update(inside)
         if len(inside) != 1:
             bad.append('one-per-excursion')
@@ -257,6 +264,10 @@ def run_shard(ctx):
     rng = ctx.rng
     for c in range(n_rand):
         n = int(rng.choice([2, 3, 5, 8, 13, 50, 200, 1000, 5000], p=[.05, .05, .1, .1, .1, .2, .2, .15, .05]))
+        long_case = c == 0 and (ctx.shard % 8 == 0 if ctx.tier == 'quick' else ctx.shard % 2 == 0)
+        if long_case:
+            n = int(rng.choice([65535, 65536, 65537, 70001]))     # a few long series past 2**16 (tol = 0 only: the
+            # library's tolerance filter is quadratic in the number of crossings)
         x, cls = random_series(rng, n)
         r = rng.random()
         if r < 0.2:         # micro-amplitude records: non-zero samples far below 1e-8 (exact zeros stay exact)
@@ -270,11 +281,14 @@ def run_shard(ctx):
             x = xi_.astype(float)
             cls = 'narrow-int'
         nontriv = len(set(x.tolist())) > 1
-        tol = 0.0 if rng.random() < 0.5 else float(rng.uniform(0, np.max(np.abs(x)) + 1e-300))
+        tol = 0.0 if (rng.random() < 0.5 or long_case) else float(rng.uniform(0, np.max(np.abs(x)) + 1e-300))
         kaz = bool(rng.random() < 0.5)
         cont = x.tolist() if rng.random() < 0.15 else x
         if cls == 'narrow-int':
             cont = x.astype(dt_)
+        elif cont is x and rng.random() < 0.12:
+            cont, vk = gen.view_form(rng, x)
+            cls += '-' + vk
         ctx.case(core.digest(x, tol, kaz), nontrivial=nontriv, cls='random-' + cls,
                  sample={'fn': 'crossings+switched', 'n': n, 'class': cls, 'tol': tol, 'keep_adj_zeros': kaz, 'head': x[:10]})
         _zc(eqsig, cont, ctx, kaz, 0.0)
